@@ -584,9 +584,23 @@ def r3_layout(program, folder, rep, write_call):
     # the byte offset of record i is i * size: an invariant of the loop,
     # however the offset is computed
     from ..poly import Poly
+    from ..terms import fold_consts, plain
     oko = False
     off_txt = unparse(a[2])
+
+    def ev(e_):
+        v_ = folder.eval(e_, env, fn._module)
+        if hasattr(v_, "cls") and v_.cls.is_int:
+            v_ = v_.value
+        return v_
+    # first on value terms (temporaries and foldable sizes resolved) ...
     if okl:
+        ot = fold_consts(plain(T.term(a[2], node)), ev)
+        IDX = ("index", ENTRIES)
+        oko = ot in (("binop", "Mult", IDX, ("const", size)),
+                     ("binop", "Mult", ("const", size), IDX))
+    # ... else as a loop invariant of the interpreter
+    if okl and not oko:
         it0 = Interp(fn)
         enum = it0._enum_index(lp)
         if enum is not None:
@@ -608,7 +622,8 @@ def r3_layout(program, folder, rep, write_call):
         DATA[2][1] == ("global", "bytearray") and len(DATA[2][2]) == 1
     if okb:
         fl = Flow(fn)
-        sz = fl.sym(_with_parents(reify(DATA[2][2][0])), fl.cfg.entry)
+        szt = fold_consts(plain(DATA[2][2][0]), ev)
+        sz = fl.sym(_with_parents(reify(szt)), fl.cfg.entry)
         want = fl.sym(_with_parents(ast.parse(
             "len(%s)" % ps[1], mode="eval").body), fl.cfg.entry) * size
         okb = sz == want
